@@ -162,6 +162,13 @@ def _work(job):
             if i % 2 == 0:
                 ch = dsched.PCTChooser(random.Random(s2), depth=rng.choice([1, 2, 3, 5]))
                 src = 'random'
+            elif i % 10 == 3:
+                # delivery timing as the adversary: bursts handled whole, the next recv returning while an adapter call runs
+                r2 = random.Random(s2)
+                ch = dsched.RandomChooser(r2, bias=dsched.burst_bias(r2))
+                src = 'random'
+                if i % 20 == 3:
+                    sc = gen_long_scenario(rng)
             else:
                 ch = dsched.RandomChooser(random.Random(s2))
                 src = 'random'
@@ -331,6 +338,22 @@ def replay(ctx, data, pid):
     return bool(vs), 'oracle: %r; lines: %r' % (vs[:3], [p[3] for p in F.puts])
 
 
+def gen_long_scenario(rng):
+    k = rng.randint(17, 40)
+    hist = [('a%d' % (i + 1), 'SUB' if i % 2 == 0 else 'USB', 'a') for i in range(k)]
+    n0 = rng.choice([1, 1, 2, 3])
+    b = rng.randint(8, 24)
+    chunks = [hist[:n0], hist[n0:n0 + b]]
+    i = n0 + b
+    while i < k:
+        step = rng.choice([1, 1, 2, 4])
+        chunks.append(hist[i:i + step])
+        i += step
+    fail = ('raise', 'SubscribeError')
+    sub = [rng.choice([fail, fail, 'ret']) for _ in range(2)]
+    return Scenario(rng.choice([1, 1, 2]), [c for c in chunks if c], {'a': {'snap': [rng.choice([True, False])], 'sub': sub}})
+
+
 def _search_work(job):
     import logging
     logging.disable(logging.CRITICAL)
@@ -358,6 +381,20 @@ def _search_work(job):
             dsched.dfs_schedules(run_capped, max_runs=cap)
         except StopIteration:
             pass
+    elif kind == 'longrandom':
+        # long single-item histories whose first subscription(s) fail, delivered as: a few requests, a pause, a burst, the rest
+        seed, n = arg
+        rng = random.Random(seed)
+        for i in range(n):
+            sc = gen_long_scenario(rng)
+            r2 = random.Random(rng.getrandbits(32))
+            ch = dsched.PCTChooser(r2, depth=rng.choice([2, 3, 4])) if i % 4 == 3 else dsched.RandomChooser(r2, bias=dsched.burst_bias(r2))
+            r = datarun.run_scenario(sc, ch, eager=('writer',), max_steps=20000)
+            vs = datarun.ORACLES[pid](r, datarun.Facts(r))
+            if vs:
+                found.append({'case': {'scenario': sc.describe(), 'schedule': [c for c, _ in r.taken], 'source': 'random'},
+                              'detail': vs[0][0], 'key': vs[0][1], 'kind': 'schedule'})
+                break
     else:
         seed, n, single = arg
         rng = random.Random(seed)
@@ -390,6 +427,7 @@ def search(ctx, res, pid):
     for _ in range(16):
         jobs.append(('random', pid, (rng.getrandbits(40), 700, True)))
         jobs.append(('random', pid, (rng.getrandbits(40), 500, False)))
+        jobs.append(('longrandom', pid, (rng.getrandbits(40), 250)))
     nproc = min(12, multiprocessing.cpu_count())
     with multiprocessing.get_context('fork').Pool(nproc) as pool:
         for hit in pool.imap_unordered(_search_work, jobs, chunksize=1):
